@@ -1,3 +1,5 @@
+#[cfg(feature = "verif")]
+use crate::verif::std_shim as std;
 use std::any::TypeId;
 use std::collections::HashMap;
 use std::fmt::Write;
@@ -472,5 +474,59 @@ mod tests {
         let source = IteratorSource::new(vec![1, 2, 3].into_iter());
         let _stream = env.stream(source).shuffle();
         env.execute_blocking();
+    }
+}
+
+#[cfg(feature = "verif")]
+impl Scheduler {
+    /// Build the execution graph and the address map exactly as `start_blocking` does, without
+    /// starting any worker, and return them in a canonical form.
+    pub(crate) fn verif_graph(mut self, num_blocks: CoordUInt) -> crate::verif::graph::GraphDump {
+        use crate::verif::observe::c3;
+        assert_eq!(
+            self.block_info.len(),
+            num_blocks as usize,
+            "Some streams do not have a sink attached: {} streams created, but only {} registered",
+            num_blocks as usize,
+            self.block_info.len(),
+        );
+        self.build_execution_graph();
+        self.network.build();
+        let mut blocks: Vec<_> = self
+            .block_info
+            .iter()
+            .map(|(id, info)| {
+                let mut replicas: Vec<_> = info
+                    .replicas
+                    .values()
+                    .flatten()
+                    .map(|c| (c3(*c), info.global_ids[c]))
+                    .collect();
+                replicas.sort();
+                crate::verif::graph::BlockDump {
+                    id: *id,
+                    replicas,
+                    only_one: info.is_only_one_strategy,
+                }
+            })
+            .collect();
+        blocks.sort_by_key(|b| b.id);
+        let mut job_edges: Vec<_> = self
+            .next_blocks
+            .iter()
+            .flat_map(|(from, next)| {
+                next.iter()
+                    .map(move |(to, _, fragile)| (*from, *to, *fragile))
+            })
+            .collect();
+        job_edges.sort();
+        let (links, addresses) = self.network.verif_dump();
+        crate::verif::graph::GraphDump {
+            host: self.config.host_id(),
+            blocks,
+            job_edges,
+            links,
+            addresses,
+        }
     }
 }
